@@ -121,5 +121,8 @@ def obligations(tier):
     obs.append(Ob('label-as-matcher', 'symx', 'the matcher parsed from a displayed label selects exactly the messages involving that incarnation / that connection', FUNCS_M,
                   'labels: %d (connection ordinal, id, incarnation) triples x 4 forms; message: target + <= 2 arguments + destroyed object with symbolic ids in [1,2^32) and incarnations in [0,2^20), connection same/other/none' % len(pool),
                   label_matcher, cases=cases, outside='unresolved objects (incarnation unknown)'))
+    from harness import c04
+    obs.append(Ob('connection-names-unique', 'symx', 'over every open/close/message history on the connection-id interface names are A, B, C.. in creation order and never repeat (closed connections keep theirs)',
+                  FUNCS_M[-1:] + FUNCS_L[2:], 'all sequences of <= %d operations over 3 connection ids' % (4 if tier != 'quick' else 3), c04.lifecycle, cases=[2, 3] if tier == 'quick' else [2, 3, 4]))
     obs.append(Ob('label-as-matcher-reachable', 'symx', 'reachability twin', FUNCS_M, '', twin, cases=[('conn+obj', 1, 7, 0)], expect_cex=True))
     return obs
